@@ -528,13 +528,16 @@ func (m *menv) foreign(b *runner.Batch) {
 		r := w.Invoke([]world.SignerSpec{world.G(u)}, w.NEO, "transfer", u.ScriptHash(), target.h, int64(1), nil)
 		r2 := w.Invoke([]world.SignerSpec{world.G(u)}, m.token, "transfer", u.ScriptHash(), target.h, int64(5), nil)
 		r3 := w.Invoke([]world.SignerSpec{world.G(u)}, target.h, "onNEP17Payment", u.ScriptHash(), int64(5), nil)
-		b.Tx(3)
-		for i, r := range []*world.TxResult{r, r2, r3} {
-			what := []string{"NEO transfer", "foreign NEP-17 token transfer", "direct onNEP17Payment call"}[i]
+		// the same with a Null sender: what a token announces when it mints (seeded change C19-6)
+		r4 := w.Invoke([]world.SignerSpec{world.G(u)}, m.token, "transfer", nil, target.h, int64(5), nil)
+		r5 := w.Invoke([]world.SignerSpec{world.G(u)}, target.h, "onNEP17Payment", nil, int64(5), nil)
+		b.Tx(5)
+		for i, r := range []*world.TxResult{r, r2, r3, r4, r5} {
+			what := []string{"NEO transfer", "foreign NEP-17 token transfer", "direct onNEP17Payment call", "foreign NEP-17 token mint (Null sender)", "direct onNEP17Payment call with a Null sender"}[i]
 			if r.Halted() || len(m.events(r, "Deposit")) > 0 {
 				b.Violation(fmt.Sprintf("%s to %s was accepted", what, target.name), m.detail(r))
 			}
-			b.Hit(fmt.Sprintf("refused-%s:%s", target.name, []string{"neo", "foreign-token", "direct-call"}[i]))
+			b.Hit(fmt.Sprintf("refused-%s:%s", target.name, []string{"neo", "foreign-token", "direct-call", "foreign-mint", "direct-call-null-sender"}[i]))
 			b.Eval(fmt.Sprintf("foreign|%s|%s|%s", target.name, what, r.State), true)
 			m.account(r, what, nil)
 		}
